@@ -74,6 +74,7 @@ TYPES = [
     ('char**', lambda: _p(_p(t_basic('char'))), ('ptr', 'strv', 'pp')),
     ('FooRec', lambda: t_typedef('FooRec'), ('rec', 'byvalue')),
     ('GError**', lambda: _p(_p(t_typedef('GError'))), ('ptr', 'pp', 'gerror')),
+    ('FooBarThing*', lambda: _p(t_typedef('FooBarThing')), ('ptr', 'rec', 'foreign')),
 ]
 TYPE_LABELS = [t[0] for t in TYPES]
 N_TYPES = len(TYPES)
@@ -99,7 +100,7 @@ DIRECTION = (None, ('in', []), ('out', []), ('out', ['caller-allocates']),
 SCOPE = (None, 'call', 'async', 'notified', 'forever')
 # type names usable in (type X) / (element-type X)
 USER_TYPES = (None, 'utf8', 'gint', 'gpointer', 'FooRec', 'Foo.Rec', 'FooSkipped', 'FooBadAlias',
-              'BarUnknown', 'GObject.Object', 'FooCb', 'FooUnknown', 'long long')
+              'BarUnknown', 'GObject.Object', 'FooCb', 'FooUnknown', 'long long', 'FooBar.Thing')
 
 
 def value_annotations(transfer=0, direction=0, scope=0, skip=False, nullable=False,
